@@ -47,6 +47,11 @@ func (c Cfg) EffDict() int {
 	if c.DictCap == 0 {
 		return 8 << 20
 	}
+	if c.DictCap < 4096 {
+		// an odd capacity (DrawOdd) the library chose to accept: no decoder
+		// can be asked for less than the format's minimum window
+		return 4096
+	}
 	return c.DictCap
 }
 
